@@ -729,6 +729,30 @@ def guarded_by_call(f, bb, callee_suffix):
     return False
 
 
+GUARD_LIKE = ("is_char_boundary", "is_empty", "len", "contains", "contains_key", "starts_with", "ends_with", "min", "max",
+              "saturating_sub", "checked_add", "checked_sub", "checked_mul", "checked_div", "checked_rem", "get", "get_mut",
+              "first", "last", "peek", "peeked_symbol_is", "is_some", "is_none", "is_ok", "is_err", "has", "find", "rfind",
+              "strip_prefix", "strip_suffix", "char_indices", "is_ascii", "clamp")
+
+
+def guard_census(f):
+    """how many times the function calls each guard-like std/helper routine (bounds, emptiness, boundary tests ..)."""
+    if hasattr(f, "_census"):
+        return f._census
+    c = {}
+    for _, t in f.calls():
+        n = (M.callee_name(t) or "").split("::")[-1].split("<")[0]
+        if n in GUARD_LIKE:
+            c[n] = c.get(n, 0) + 1
+    f._census = c
+    return c
+
+
+def census_lost(f, recorded):
+    now = guard_census(f)
+    return ["%s x%d (was x%d)" % (k, now.get(k, 0), v) for k, v in sorted(recorded.items()) if now.get(k, 0) < v]
+
+
 def _guards_match(row, ordinal, now):
     """the site's current guard set covers one of the guard sets recorded for this key at review time."""
     now = set(now)
@@ -948,6 +972,11 @@ def run(ctx, res, layers, floor_fns, floor_sites, extra_roots=(), label="PANIC-I
                         "reviewed site `%s`: a condition it was reviewed under no longer guards it (%s); the safety argument "
                         "('%s') must be re-examined" % (k, "; ".join(lost)[:200], row.get("reason", "")[:120]),
                         s.loc(), {"row": row, "now": guard_fingerprint(f, s.bb)})
+            elif row.get("census") and census_lost(f, row["census"]):
+                res.bad(label, k + " # guard-call-removed",
+                        "reviewed site `%s`: the function makes fewer bounds/boundary/emptiness tests than when it was reviewed (%s); "
+                        "the safety argument ('%s') must be re-examined" % (k, ", ".join(census_lost(f, row["census"])), row.get("reason", "")[:120]),
+                        s.loc(), {"row": row})
             elif cg:
                 res.bad(label, k + " # caller-guard",
                         "reviewed site `%s` relies on its callers establishing a precondition: %s" % (k, "; ".join(cg)),
